@@ -20,7 +20,7 @@ RULE = (
     "80-column grammar and the record automaton (MODEL (ATOM+ TER)+ ENDMDL)+ END; splitter.main output files likewise. "
     "Non-trivial = table has >=2 atoms; distinct = canonical JSON hash of the case descriptor."
 )
-ASSUMPTIONS = ["emitter vmon/emit.py; grammar vmon/oracles/pdbfmt.py", "a blank PDB chain id has no mmCIF representation: PDB->PDB only"]
+ASSUMPTIONS = ["emitter vmon/emit.py; grammar vmon/oracles/pdbfmt.py", "a blank PDB chain id is in domain where the table starts as PDB (PDB->PDB, PDB->mmCIF->PDB); an mmCIF table without any chain id is not generated"]
 REQUIRED_MONITORS = ["parser_v2.parse_pdb_atoms", "parser_v2.parse_cif_atoms", "parser_v2.write_pdb", "parser_v2.write_cif"]
 REQUIRED_CLAUSES = ["roundtrip.pdb-pdb", "roundtrip.cif-cif", "roundtrip.pdb-cif-pdb", "roundtrip.cif-pdb-cif", "layout.atom-records", "layout.record-sequence", "splitter.layout"]
 LANDMARKS = {
@@ -371,13 +371,13 @@ def run_case(case, rec):
     if fam == "hostile":
         rng = random.Random(f"C09:hostile:{case['h']}")
         path = case["path"]
-        rows = gentab.random_table(rng, nmodels=1 + case["h"] % 3, nchains=2 + case["h"] % 2, blank_chain=(path == "pdb-pdb"), null_occ=False)
+        rows = gentab.random_table(rng, nmodels=1 + case["h"] % 3, nchains=2 + case["h"] % 2, blank_chain=(path in ("pdb-pdb", "pdb-cif-pdb")), null_occ=False)
         ctx = {"hostile": case["h"], "path": path}
     elif fam == "generated":
         rng = random.Random(f"{seed}:C09:{case['i']}")
         path = case["path"]
         restart = (case["i"] // 4) % 4 == 1
-        rows = gentab.random_table(rng, blank_chain=(path == "pdb-pdb" and rng.random() < 0.15), null_occ=False, hetero=case["i"] % 3 == 1, nmodels=rng.choice([2, 3]) if restart else None)
+        rows = gentab.random_table(rng, blank_chain=(path in ("pdb-pdb", "pdb-cif-pdb") and rng.random() < 0.15), null_occ=False, hetero=case["i"] % 3 == 1, nmodels=rng.choice([2, 3]) if restart else None)
         if restart:
             # serial numbers restart in every MODEL (the usual layout of NMR ensembles)
             first = min(r["serial"] for r in rows)
@@ -404,7 +404,7 @@ def run_case(case, rec):
         rows = emit.rows_from_structure(s)
         path = case["path"]
         ctx = {"file": case["file"], "path": path}
-        if path != "pdb-pdb" and any(not (r["chain"] or "").strip() for r in rows):
+        if path not in ("pdb-pdb", "pdb-cif-pdb") and any(not (r["chain"] or "").strip() for r in rows):
             rec.skip("roundtrip." + path, "blank-chain")
             return
     if not emit.fits_pdb(rows):
